@@ -142,7 +142,7 @@ if "attribute" in CASE:
     a = CASE["attribute"]
     print("attribute value:", repr(a))
     import re
-    pieces = re.split(r"(\\\\$\\\\{[^{}$]+\\\\})", a)
+    pieces = re.split(r"(\\$\\{[^{}$]+\\})", a)
     want = "".join(("<%s>" % x[2:-1].strip()) if x.startswith("${") else x for x in pieces)
     names = {x[2:-1].strip() for x in pieces if x.startswith("${")}
     try:
@@ -167,7 +167,7 @@ else:
     from props.render_step import TEMPLATE_FULL as TEMPLATE, INC, ALL_SITES as SITES, Boom
     site = CASE["site"]
     lk = TemplateLookup(); lk.put_string("inc", INC)
-    lk.put_string("main", TEMPLATE + "start|${%s()}|<%%call expr=\\\\"h_%s()\\\\">hb</%%call>|end" % (site, site))
+    lk.put_string("main", TEMPLATE + "start|${%s()}|<%%call expr=\\"h_%s()\\">hb</%%call>|end" % (site, site))
     def probe(i): return "#%d#" % i
     data = dict(probe=probe, up=lambda s: s.upper(), tf=lambda s: probe(9) + s.lower(), Boom=Boom, items=lambda m: (7,))
     normal = SITES[site][0]
